@@ -14,6 +14,7 @@ import (
 	"github.com/failsafe-go/failsafe-go/bulkhead"
 	"github.com/failsafe-go/failsafe-go/cachepolicy"
 	"github.com/failsafe-go/failsafe-go/circuitbreaker"
+	"github.com/failsafe-go/failsafe-go/fallback"
 	"github.com/failsafe-go/failsafe-go/ratelimiter"
 	"github.com/failsafe-go/failsafe-go/retrypolicy"
 	"github.com/failsafe-go/failsafe-go/timeout"
@@ -352,6 +353,61 @@ func deepResultUnit(prop, policyPrefix string) Unit {
 	}}
 }
 
+// c10HistoryUnit: whether a fallback is applied to an outcome does not depend on what the same
+// fallback instance handled before (error shapes that share their outermost type but differ in what
+// they wrap, one after the other): every ordered pair of outcomes x condition sets with type targets.
+func c10HistoryUnit() Unit {
+	var hist []outcome
+	for _, o := range c12Outcomes() {
+		if o.v == 0 || o.err == nil {
+			hist = append(hist, o)
+		}
+	}
+	var condSets [][]Cond
+	for variant := 0; variant < 4; variant++ {
+		condSets = append(condSets, c12Conds([]int{1}, variant), c12Conds([]int{0, 1}, variant))
+	}
+	condSets = append(condSets, c12Conds([]int{0}, 0), c12Conds([]int{0}, 8))
+	return Unit{Name: "C10/histories: one fallback instance classifies two outcomes one after the other", Run: func(dl time.Time) *Stats {
+		st := &Stats{BoundCompleted: 0, outcomes: map[string]int{}}
+		for _, conds := range condSets {
+			for _, first := range hist {
+				var msg string
+				r := vrt.Execute(vrt.Options{}, func() {
+					for _, second := range hist {
+						fb := applyHandle(fallback.BuilderWithResult[int](99), conds).Build()
+						for step, o := range []outcome{first, second, first} {
+							o := o
+							v, err := failsafe.Get(func() (int, error) { return o.v, o.err }, fb)
+							applied := v == 99 && err == nil
+							if want := isFailure(conds, o.v, o.err); applied != want {
+								msg = fmt.Sprintf("fallback with conditions [%s]: outcome %s (step %d of the history %s, %s, %s on one instance) applied=%v, the documented rules classify it as failure=%v", condStr(conds), o.name, step, first.name, second.name, first.name, applied, want)
+								return
+							}
+						}
+					}
+				})
+				st.Executions++
+				st.Steps += r.Steps
+				if r.Panic != "" {
+					msg = "panic: " + r.Panic
+				}
+				if msg != "" {
+					v := Violation{Scenario: "C10/history/" + condStr(conds), Message: msg}
+					v.Sig = signature(v.Scenario, msg)
+					st.Violations = append(st.Violations, v)
+					if len(st.Violations) > 3 {
+						return st
+					}
+				}
+			}
+		}
+		st.Sample = []string{fmt.Sprintf("%d condition sets x %d x %d ordered pairs of outcomes", len(condSets), len(hist), len(hist))}
+		st.Outcomes, st.Nontrivial = st.Executions, st.Executions
+		return st
+	}}
+}
+
 // c02BuilderUnit: a policy keeps the limits it was built with, whatever is done to its builder afterwards
 // (the builder is reconfigured and used for a second policy; both are then executed, in both orders).
 func c02BuilderUnit() Unit {
@@ -575,7 +631,8 @@ func c02SharingScenarios(tier string) []*Scenario {
 	}
 	var out []*Scenario
 	sharedExecutor := false
-	add := func(name string, r Spec, exes []ExeSpec) {
+	var add func(name string, r Spec, exes []ExeSpec)
+	addStack := func(name string, stack []Spec, exes []ExeSpec) {
 		sharedEx := sharedExecutor
 		if sharedEx {
 			name += "/one-executor"
@@ -587,13 +644,13 @@ func c02SharingScenarios(tier string) []*Scenario {
 		}
 		var want []pred
 		for _, es := range exes {
-			v, e, n := plainOutcome([]Spec{r}, es.Script)
+			v, e, n := plainOutcome(stack, es.Script)
 			want = append(want, pred{v, e, n})
 		}
 		out = append(out, &Scenario{
-			Name:  fmt.Sprintf("C02/sharing/%s [%s] %s", name, r.String(), exesStr(exes)),
+			Name:  fmt.Sprintf("C02/sharing/%s [%s] %s", name, stackStr(stack), exesStr(exes)),
 			Bound: bound, Reduce: true,
-			Body: multiBody([]Spec{r}, exes, MultiOpts{Reduce: true, SharedExecutor: sharedEx, Final: func(env *Env) string {
+			Body: multiBody(stack, exes, MultiOpts{Reduce: true, SharedExecutor: sharedEx, Final: func(env *Env) string {
 				for i, x := range env.Exes {
 					w := want[i]
 					if len(x.Invs) != w.invs {
@@ -607,8 +664,14 @@ func c02SharingScenarios(tier string) []*Scenario {
 			}}),
 		})
 	}
+	add = func(name string, r Spec, exes []ExeSpec) { addStack(name, []Spec{r}, exes) }
 	failing := []Out{{Err: E1}}
 	failOnce := []Out{{Err: E1}, {V: 1}}
+	// the policy inside another retry policy: a second execution runs through both while the first one sits
+	// in the outer policy's delay, between two passes through the inner policy
+	nested := []Spec{{Kind: KRetry, MaxRetries: 1, Delay: 10}, {Kind: KRetry, MaxRetries: 1}}
+	addStack("nested-interleaved", nested, []ExeSpec{{Script: failing}, {Script: failing, StartAt: 5}})
+	addStack("nested-interleaved", nested, []ExeSpec{{Script: failing}, {Script: failOnce, StartAt: 5}})
 	for _, mr := range []int{0, 1, 2} {
 		r := Spec{Kind: KRetry, MaxRetries: mr}
 		add("two-failing", r, []ExeSpec{{Script: failing}, {Script: failing}})
@@ -656,7 +719,7 @@ func init() {
 			for _, sc := range c10CancelScenarios(tier) {
 				us = append(us, scenarioUnit(sc))
 			}
-			us = append(us, deepResultUnit("C10", "fallback"))
+			us = append(us, deepResultUnit("C10", "fallback"), c10HistoryUnit())
 			return us
 		},
 	})
